@@ -40,6 +40,42 @@ def forge_ordinary_child(it, i, depth=None, hash_=None):
     c.attrs['_hash'] = h
     d = depth if depth is not None else atom(f'd{i}')
     c.attrs['_depths'] = ListV([d if not isinstance(d, int) else K(d)])
+    return reforge(it, c)
+
+
+def reforge(it, c):
+    """after a fixture has replaced the hashes / depths / level mask a constructor-built cell caches, the statements of Cell.__init__ that
+    follow the hash computation are executed again on it, so that whatever else the constructor derives from them (descriptor bytes, the
+    top hash, per-level tables a maintainer may add) is consistent with the forged values - the fixture does not depend on how the class
+    caches what it derives"""
+    import ast as _ast
+    from .interp import Frame
+    cls = it.prog.cls('Cell')
+    owner, fn = it.prog.find_method(cls, '__init__')
+    if fn is None:
+        return c
+
+    def touches(st):
+        for x in _ast.walk(st):
+            if isinstance(x, _ast.Attribute) and isinstance(x.value, _ast.Name) and x.value.id == 'self':
+                if x.attr == 'calculate_hashes' or (x.attr in ('_hashes', '_depths') and isinstance(x.ctx, _ast.Store)):
+                    return True
+        return False
+    idx = max([i for i, st in enumerate(fn.body) if touches(st)], default=None)
+    if idx is None:
+        return c
+    fr = Frame(owner.module, None, FuncRef(fn, owner.module, owner), owner)
+    names = [a.arg for a in fn.args.args]
+    fr.vars[names[0]] = c
+    guess = {'bits': 'bits', 'refs': 'refs', 'cell_type': 'type_', 'type_': 'type_'}
+    for nm in names[1:]:
+        if guess.get(nm) in c.attrs:
+            fr.vars[nm] = c.attrs[guess[nm]]
+    try:
+        for st in fn.body[idx + 1:]:
+            it.stmt(st, fr)
+    except (Fail, ReturnEx):
+        pass
     return c
 
 
